@@ -795,16 +795,25 @@ class Dict(dict, base.Symbolic, pg_typing.CustomTyping):
       raise base.WritePermissionError('Cannot clear a sealed Dict.')
     value_spec = self._value_spec
     self._value_spec = None
-    removed = list(self.sym_values())
+    removed = list(self.sym_items())
     super().clear()
+
+    if value_spec:
+      try:
+        self.use_value_spec(value_spec, self._allow_partial)
+      except (TypeError, ValueError, KeyError):
+        # The schema has required fields: keep the dict as it was.
+        super().clear()
+        for k, v in removed:
+          super().__setitem__(k, v)
+        self._value_spec = value_spec
+        raise
+
     # Detach the removed values from object tree.
-    for value in removed:
+    for _, value in removed:
       if isinstance(value, base.TopologyAware):
         value.sym_setparent(None)
         value.sym_setpath(utils.KeyPath())
-
-    if value_spec:
-      self.use_value_spec(value_spec, self._allow_partial)
 
   def setdefault(self, key: Union[str, int], default: Any = None) -> Any:
     """Sets default as the value to key if not present."""
